@@ -545,6 +545,14 @@ def _eval_moments(case):
     before = img.copy()
     with warnings.catch_warnings():
         warnings.simplefilter('ignore')
+        if case.get('_hist'):
+            # history: the normalised moment of the same image was asked for first (result discarded); the plain
+            # moment that follows is the defining sum all the same
+            try:
+                with np.errstate(all='ignore'):
+                    mh.moments(img, p0, p1, cm=tuple(cm) if cm is not None else None, normalize=True)
+            except Exception:  # noqa
+                pass
         got = float(mh.moments(img, p0, p1, cm=tuple(cm) if cm is not None else None))
     c0, c1 = cm if cm is not None else (0, 0)
     findings = []
